@@ -1,5 +1,6 @@
 // govc:pkg .
 // govc:bound 160 (thorough: 800) random arithmetic expressions of depth <= 3 over columns and literals (parenthesised exactly where precedence requires), each as a SELECT item (EmitSync) and inside a WHERE comparison, over 8 rows whose columns a,b,c are int or float64 (no NULL, no zero divisor); plus 120 (thorough: 600) expressions evaluated on rows in which one mentioned column is explicit nil or absent (result must be NULL)
+// govc:also C13
 // Bounded stand-in (NOT a proof) for what the kernels under contract do not reach: the choice between the internal
 // evaluators and expr-lang. On NULL-free rows every path must give the value of ordinary arithmetic with SQL
 // precedence; in WHERE the row is kept iff the comparison is true.
